@@ -97,10 +97,14 @@ int streamWrapper(void *ptr, const MPT_STRUCT(message) *msg)
 				        MPT_tr("dispatch failed"), MPT_tr("unknown reply id"), mid);
 				return MPT_ERROR(BadValue);
 			}
-			/* reply handler is finished with first answer */
-			ret = ans->cmd(ans->arg, &tmp);
-			ans->cmd = 0;
-			return ret;
+			/* reply handler is finished with first answer:
+			 * release it first, the handler may register new requests (and move the array) */
+			{
+				int (*rcmd)(void *, void *) = ans->cmd;
+				void *rarg = ans->arg;
+				ans->cmd = 0;
+				return rcmd(rarg, &tmp);
+			}
 		}
 		ctx = 0;
 		for (i = 0; i < idlen; ++i) {
@@ -253,9 +257,14 @@ extern int mpt_connection_dispatch(MPT_STRUCT(connection) *con, MPT_TYPE(event_h
 		}
 		msg.base = data + hlen;
 		msg.used = buf->_used - hlen;
-		/* reply handler is finished with first answer */
-		len = ans->cmd(ans->arg, &msg);
-		ans->cmd = 0;
+		/* reply handler is finished with first answer:
+		 * release it first, the handler may register new requests (and move the array) */
+		{
+			int (*rcmd)(void *, void *) = ans->cmd;
+			void *rarg = ans->arg;
+			ans->cmd = 0;
+			len = rcmd(rarg, &msg);
+		}
 		if (len < 0) {
 			mpt_log(0, _func, MPT_LOG(Error), "%s (%i)",
 			        MPT_tr("reply processing failed"), len);
